@@ -1,8 +1,103 @@
 import XmppModel.Prelude.Hex
-/-! Driver module for C13: `handle args` answers one protocol line (fields after the
-property id); `none` means the line is not understood (`!bad-op`). -/
-namespace XmppModel.Driver.C13
+import XmppModel.Prelude.Xml
+import XmppModel.Model.Stanza
+import XmppModel.Model.Encoder
+/-! Driver for C13 (see harness/c13 for the line protocol).  All text fields hex (`-` empty).
 
-def handle (_args : List String) : Option String := none
+    start <kind> <space> <id> <to> <from> <lang> <typ>          -> start token
+    new <kind> <tok> <v=j,…>                                    -> ok <space> <loc> <id> <to> <from> <lang> <typ> | err
+    wrap <kind> <6 fields> <payload>                            -> tokens
+    result <6 fields> <payload>                                 -> tokens
+    error <kind> <6 fields> <by> <typ> <cond> <texts>           -> tokens
+    serr <by> <typ> <cond> <lang=text,…> <payload>              -> tokens
+    sdec <toks> <v=j,…>                                         -> ok <by> <typ> <cond> <texts> | err
+    sterr <err> <content> <texts> <payload>                     -> tokens
+    stdec <toks>                                                -> ok <err> <content> <texts> | err
+-/
+namespace XmppModel.Driver.C13
+open XmppModel XmppModel.Xml XmppModel.Stanza
+
+def parseKind : String → Option Kind
+  | "iq" => some .iq | "message" => some .message | "presence" => some .presence | _ => none
+
+def hx (s : String) : String := hexEncodeStr s
+
+/-- tokens are printed with sorted attributes (order carries no meaning) -/
+def showToks (ts : List Tok) : String := encToks (Encoder.normAttrs ts)
+
+/-- `v=j` pairs (hex); `j` = `!` for a parse error -/
+def parseTable (s : String) : Option (List (String × Option String)) :=
+  mapM? (fun (p : String) =>
+    match p.splitOn "=" with
+    | [a, b] => do
+      let v ← hexDecodeStr a
+      if b == "!" then pure (v, none) else do
+        let j ← hexDecodeStr b
+        pure (v, some j)
+    | _ => none) (splitList s)
+
+def lookup (t : List (String × Option String)) (v : String) : Option String :=
+  match t.find? (·.1 == v) with
+  | some (_, r) => r
+  | none => none
+
+def parseTexts (s : String) : Option (List (String × String)) :=
+  mapM? (fun (p : String) =>
+    match p.splitOn "=" with
+    | [a, b] => do
+      let l ← hexDecodeStr a
+      let t ← hexDecodeStr b
+      pure (l, t)
+    | _ => none) (splitList s)
+
+def showTexts (l : List (String × String)) : String :=
+  joinList (l.map fun p => s!"{hx p.1}={hx p.2}")
+
+def mkStz (sp id to fr lang typ : String) : Option Stz := do
+  let sp ← hexDecodeStr sp; let id ← hexDecodeStr id; let to ← hexDecodeStr to
+  let fr ← hexDecodeStr fr; let lang ← hexDecodeStr lang; let typ ← hexDecodeStr typ
+  pure ⟨⟨sp, ""⟩, id, to, fr, lang, typ⟩
+
+def handle (args : List String) : Option String :=
+  match args with
+  | ["start", k, sp, id, to, fr, lang, typ] => do
+    let k ← parseKind k; let x ← mkStz sp id to fr lang typ
+    pure (showToks [startElement k x])
+  | ["new", k, tok, table] => do
+    let k ← parseKind k; let t ← decTok tok; let tb ← parseTable table
+    match t with
+    | .start n as =>
+      match newStz (lookup tb) k n as with
+      | some v => pure s!"ok {hx v.name.space} {hx v.name.loc} {hx v.id} {hx v.to} {hx v.from_} {hx v.lang} {hx v.typ}"
+      | none => pure "err"
+    | _ => none
+  | ["wrap", k, sp, id, to, fr, lang, typ, payload] => do
+    let k ← parseKind k; let x ← mkStz sp id to fr lang typ; let p ← decToks payload
+    pure (showToks (wrap k x p))
+  | ["result", sp, id, to, fr, lang, typ, payload] => do
+    let x ← mkStz sp id to fr lang typ; let p ← decToks payload
+    pure (showToks (result x p))
+  | ["error", k, sp, id, to, fr, lang, typ, by_, etyp, cond, texts] => do
+    let k ← parseKind k; let x ← mkStz sp id to fr lang typ
+    let b ← hexDecodeStr by_; let et ← hexDecodeStr etyp; let c ← hexDecodeStr cond; let tx ← parseTexts texts
+    pure (showToks (errorReply k x ⟨b, et, c, tx⟩))
+  | ["serr", by_, etyp, cond, texts, payload] => do
+    let b ← hexDecodeStr by_; let et ← hexDecodeStr etyp; let c ← hexDecodeStr cond; let tx ← parseTexts texts
+    let p ← decToks payload
+    pure (showToks (errTokens ⟨b, et, c, tx⟩ p))
+  | ["sdec", toks, table] => do
+    let ts ← decToks toks; let tb ← parseTable table
+    match decodeErr (lookup tb) ts with
+    | some e => pure s!"ok {hx e.by_} {hx e.typ} {hx e.cond} {showTexts e.texts}"
+    | none => pure "err"
+  | ["sterr", err, content, texts, payload] => do
+    let e ← hexDecodeStr err; let c ← hexDecodeStr content; let tx ← parseTexts texts; let p ← decToks payload
+    pure (showToks (streamErrTokens ⟨e, tx, c⟩ p))
+  | ["stdec", toks] => do
+    let ts ← decToks toks
+    match decodeStreamErr ts with
+    | some e => pure s!"ok {hx e.err} {hx e.content} {showTexts e.texts}"
+    | none => pure "err"
+  | _ => none
 
 end XmppModel.Driver.C13
